@@ -1044,6 +1044,17 @@ func c10RunStream(t *testing.T, i int, seed uint64, c c10Rpc, cancelAt time.Dura
 			if cancelAt > 0 {
 				time.AfterFunc(cancelAt, cancel)
 			}
+			// watchdog: an exchange still pending after an hour of virtual time is blocked
+			// for good (periodic timers of the peerstore keep the bubble from deadlocking)
+			wd := time.AfterFunc(time.Hour, func() {
+				blocked = true
+				for _, s := range []*c10Stream{s1, s2} {
+					if s != nil {
+						s.shut()
+					}
+				}
+				cancel()
+			})
 			start := time.Now()
 			func() {
 				defer func() {
@@ -1054,6 +1065,7 @@ func c10RunStream(t *testing.T, i int, seed uint64, c c10Rpc, cancelAt time.Dura
 				out, kind, callErr = c10Call(pm, ctx, c, d, true)
 			}()
 			elapsed = time.Since(start)
+			wd.Stop()
 			h.mu.Lock()
 			opened = h.opened
 			h.mu.Unlock()
